@@ -31,13 +31,30 @@ R_COMP = ["1w", "2w", "1e", "XXXz", "___z"]
 S_COMP = ["01", "02", "XX", "__"]
 DESCS = ["NE/4", "Northeast Quarter", "NE¼", "Lots 1 - 3, S/2NE/4", "Lot 3, S/2NE/4, Lots 1, 2", "W/2", "That part lying north of the river",
          # the same lots / aliquots with repeats inside one description (the lots_qqs method compares them as sets)
-         "NE/4, N/2NE/4", "Lots 1 - 3", "Lot 3, Lots 1 - 3"]
+         "NE/4, N/2NE/4", "Lots 1 - 3", "Lot 3, Lots 1 - 3", "NE/4", "NE/4, N/2NE/4", "Lots 1 - 3", "Lot 3, Lots 1 - 3"]
 
 ELEM = st.fixed_dictionaries({
     "t": st.sampled_from(T_COMP[:3] * 3 + T_COMP), "r": st.sampled_from(R_COMP[:3] * 3 + R_COMP), "s": st.sampled_from(S_COMP[:2] * 3 + S_COMP),
-    "desc": st.sampled_from(DESCS), "parsed": st.booleans(), "source": st.sampled_from([None, "a", "b", 7]),
+    "desc": st.sampled_from(DESCS), "parsed": st.sampled_from([True, True, False]), "source": st.sampled_from([None, "a", "b", 7]),
 })
-LIST = st.lists(ELEM, min_size=0, max_size=10)
+# the same land written with a repeat inside the description (a duplicate by its set of lots / aliquots, not by its text)
+REPEAT_VARIANT = {"NE/4": "NE/4, N/2NE/4", "Northeast Quarter": "NE/4, N/2NE/4", "NE¼": "N/2NE/4, NE/4", "Lots 1 - 3": "Lot 3, Lots 1 - 3", "W/2": "W/2, NW/4",
+                  "Lots 1 - 3, S/2NE/4": "Lots 1 - 3, S/2NE/4, Lot 2"}
+
+
+def _with_twins(t):
+    elems, picks = t
+    out = list(elems)
+    for p in picks:
+        if out:
+            e = out[p % len(out)]
+            if e["desc"] in REPEAT_VARIANT:
+                out[p % len(out)] = dict(e, parsed=True)
+                out.insert((p * 3) % (len(out) + 1), dict(e, desc=REPEAT_VARIANT[e["desc"]], parsed=True))
+    return out[:12]
+
+
+LIST = st.tuples(st.lists(ELEM, min_size=0, max_size=10), st.lists(st.integers(0, 9), max_size=2)).map(_with_twins)
 DUPS = st.lists(st.integers(0, 9), max_size=3)
 
 
